@@ -199,6 +199,9 @@ type Effects struct {
 	retAct   map[string]bool
 	globals  map[*ssa.Global]*AbsVal
 	unres    map[ssa.Instruction]bool // call sites resolved only through VTA fallback
+	evalMemo map[evalKey]AbsVal
+	evalBusy map[evalKey]bool
+	evalCuts int
 }
 
 func NewEffects(p *Prog) *Effects {
@@ -278,8 +281,8 @@ func (e *Effects) closureEnv(g *ssa.Function, ownerEnv *Env) *Env {
 
 func (e *Effects) Eval(v ssa.Value, env *Env) AbsVal { return e.eval(v, env, 0) }
 
-func (e *Effects) eval(v ssa.Value, env *Env, d int) AbsVal {
-	if d > 40 || v == nil {
+func (e *Effects) evalRaw(v ssa.Value, env *Env, d int) AbsVal {
+	if d > 400 || v == nil {
 		return topVal
 	}
 	switch x := v.(type) {
@@ -336,7 +339,7 @@ func (e *Effects) eval(v ssa.Value, env *Env, d int) AbsVal {
 			if ed == v {
 				continue
 			}
-			out = out.join(e.eval(ed, env, d+6))
+			out = out.join(e.eval(ed, env, d+3))
 		}
 		return out
 	case *ssa.Extract:
@@ -380,8 +383,8 @@ func (e *Effects) eval(v ssa.Value, env *Env, d int) AbsVal {
 }
 
 // elems: abstract value of the elements of a slice/map/array value.
-func (e *Effects) elems(v ssa.Value, env *Env, d int) AbsVal {
-	if d > 40 {
+func (e *Effects) elemsRaw(v ssa.Value, env *Env, d int) AbsVal {
+	if d > 400 {
 		return topVal
 	}
 	switch x := v.(type) {
@@ -422,7 +425,7 @@ func (e *Effects) elems(v ssa.Value, env *Env, d int) AbsVal {
 		out := AbsVal{}
 		for _, ed := range x.Edges {
 			if ed != v {
-				out = out.join(e.elems(ed, env, d+6))
+				out = out.join(e.elems(ed, env, d+3))
 			}
 		}
 		return out
@@ -457,7 +460,7 @@ func (e *Effects) load(addr ssa.Value, env *Env, d int) AbsVal {
 }
 
 func (e *Effects) loadCell(c CellRef, d int) AbsVal {
-	if d > 40 {
+	if d > 400 {
 		return topVal
 	}
 	out := AbsVal{}
@@ -601,7 +604,7 @@ func (e *Effects) variadic(arg ssa.Value) []ssa.Value {
 
 func (e *Effects) evalCall(c *ssa.Call, idx int, env *Env, d int) AbsVal {
 	p := e.p
-	if d > 40 {
+	if d > 400 {
 		return topVal
 	}
 	if b, ok := c.Call.Value.(*ssa.Builtin); ok {
@@ -1036,3 +1039,47 @@ func (e *Effects) ChainString(ef Effect) string {
 }
 
 var _ = types.Typ
+
+type evalKey struct {
+	v    ssa.Value
+	env  *Env
+	kind byte
+}
+
+// eval / elems memoise per (value, environment): the abstract evaluation is a pure
+// function of both, and without the memo nested phis make it exponential. A value met
+// again while it is being evaluated (a loop-carried phi) contributes nothing on that
+// path; results computed below such a cut are not cached.
+func (e *Effects) eval(v ssa.Value, env *Env, d int) AbsVal  { return e.memoEval(v, env, d, 0) }
+func (e *Effects) elems(v ssa.Value, env *Env, d int) AbsVal { return e.memoEval(v, env, d, 1) }
+
+func (e *Effects) memoEval(v ssa.Value, env *Env, d int, kind byte) AbsVal {
+	if v == nil {
+		return topVal
+	}
+	if e.evalMemo == nil {
+		e.evalMemo = map[evalKey]AbsVal{}
+		e.evalBusy = map[evalKey]bool{}
+	}
+	k := evalKey{v, env, kind}
+	if r, ok := e.evalMemo[k]; ok {
+		return r
+	}
+	if e.evalBusy[k] {
+		e.evalCuts++
+		return AbsVal{}
+	}
+	e.evalBusy[k] = true
+	before := e.evalCuts
+	var r AbsVal
+	if kind == 0 {
+		r = e.evalRaw(v, env, d)
+	} else {
+		r = e.elemsRaw(v, env, d)
+	}
+	delete(e.evalBusy, k)
+	if e.evalCuts == before {
+		e.evalMemo[k] = r
+	}
+	return r
+}
